@@ -22,6 +22,7 @@ import (
 	"fmt"
 	"golang.org/x/sys/unix"
 	"os"
+	"strings"
 	"time"
 
 	"github.com/talostrading/sonic"
@@ -64,6 +65,13 @@ func C01(tier string) *engine.Report {
 	rep := engine.NewReport("C01", tier, "exploration")
 	var tot engine.DFSTotals
 	done := runLadder(rep, &tot, tier, func(st ioStage) *engine.DFS { return c01DFS(tier, st) })
+	if len(rep.Violations) == 0 {
+		// a write the kernel takes in pieces (the driver's own writes are 3 bytes)
+		bres := c01BigWriteDFS(tier).Run()
+		tot.Add(bres, rep)
+		rep.Coverage["big_writes"] = map[string]any{"executions": bres.Executions, "finished": bres.Exhaustive, "violations": len(bres.Violations),
+			"space": "{Dial conn, accepted conn, FIFO write end} x AsyncWrite | AsyncWriteAll of 1 MiB (FIFO: 256 KiB) x peer drains at once | 16 KiB per step x started normally | at the dispatch limit"}
+	}
 	tot.Fill(rep, "all action sequences up to the depth bound over two real objects (all 28 unordered pairs of {Dial conn, accepted conn, FIFO read end, FIFO write end, packet conn, listener, AsyncAdapter}) sharing one IO, with raw-syscall peers, plus a regular file (which epoll refuses: its deferred operations complete with the registration error, once) alone and next to a FIFO; "+
 		"start variants (forced-deferred, *All) and handler behaviours (re-issue, cancel/close self or other, re-arm on cancellation) are deviations, all combinations up to the bound; non-trivial = at least one action was taken", 0)
 	fillLadder(rep, done, len(rep.Violations) > 0)
@@ -72,6 +80,9 @@ func C01(tier string) *engine.Report {
 }
 
 func C01Replay(v engine.Violation, log func(string)) *engine.Violation {
+	if strings.HasPrefix(v.Config, "bigwrite@") {
+		return c01BigWriteDFS(v.Config[len("bigwrite@"):]).ReplayChoices(v.Choices)
+	}
 	tier, st := parseStage(v.Config)
 	return c01DFS(tier, st).ReplayChoices(v.Choices)
 }
